@@ -73,6 +73,13 @@ def make_app():
     routes.append(Route('/r/<k>', mk('answer')))
     table.append(('/r/<k>', None, 'answer'))
     mw = StatsMiddleware()
+    # the very same middleware object also listed on a Route and on an embedded application: one middleware, each request counted once
+    routes.append(Route('/w/route', mk('answer'), middlewares=[mw]))
+    table.append(('/w/route', None, 'answer'))
+    inner = Application([Route('/x', mk('created')), Route('/y', mk('raise403'))], middlewares=[mw])
+    routes.append(('/w/sub', inner))
+    table.append(('/w/sub/x', None, 'created'))
+    table.append(('/w/sub/y', None, 'raise403'))
     app = Application(routes + [('/_stats', create_stats_app())], middlewares=[mw])
     return app, table
 
@@ -197,7 +204,8 @@ def stats_machine():
     from hypothesis import strategies as st
     from hypothesis.stateful import RuleBasedStateMachine, rule
 
-    paths = ['/r/' + k for k in ROUTE_KINDS] + ['/q/nb403', '/q/nbret404', '/nowhere', '/r/answer/x', '/', '/r/other']
+    paths = ['/r/' + k for k in ROUTE_KINDS] + ['/q/nb403', '/q/nbret404', '/nowhere', '/r/answer/x', '/', '/r/other',
+                                                '/w/route', '/w/sub/x', '/w/sub/y']
 
     class StatsMachine(RuleBasedStateMachine):
         ctx = None
